@@ -13,6 +13,9 @@ GRID = [[0, 0], [0, 1], [1, 0], [1, 1], [2, 0], [0, 2], [2, 1], [1, 2], [2, 2], 
 # unequal column scales, no duplicate rows: variance / covariance based metrics are well defined and sensitive
 FGRID = [[0.1, 3.0], [1.2, 1.0], [2.5, 7.0], [0.7, 4.0], [1.9, 0.5], [3.1, 6.0], [0.4, 2.0], [2.2, 5.5], [1.5, 3.5], [2.8, 1.5],
          [0.9, 6.5], [3.4, 2.5]]
+# one-decimal contexts: sums such as 0.1 + 0.2 = 0.30000000000000004 lie within float32 resolution of a round radius
+DGRID = [[0.1, 0.2], [0.4, 0.2], [0.1, 0.5], [0.3, 0.3], [0.7, 0.1], [0.2, 0.6], [0.5, 0.5], [0.1, 0.1], [0.6, 0.3], [0.3, 0.1],
+         [0.4, 0.4], [0.2, 0.2]]
 MGRID = [[0, 0], [2, 2], [3, 0], [3, 3], [4, 0], [0, 0], [2, 2], [3, 0], [0, 0], [4, 0], [3, 3], [2, 2]]
 
 
